@@ -372,6 +372,8 @@ def request(R):
     okl = False
     for n in req_defs:
         e = n.ast.value.elts[0]
+        if isinstance(e, ast.Name):
+            e = rd.origin(n, e)[0]            # request line kept in a local first
         inner = e.func.value if isinstance(e, ast.Call) and isinstance(e.func, ast.Attribute) and e.func.attr == 'encode' else None
         if isinstance(inner, ast.Call) and U(inner.func) == "'GET {} HTTP/1.1'.format" and U(inner.args[0]) == 'self.resource':
             okl = True
